@@ -802,6 +802,24 @@ main(int argc, char **argv)
 			printf("x\n");
 			fflush(stdout);
 			continue;
+		} else if (strcmp(op, "bufsend") == 0) {
+			// bufsend s<k> <hex>: nng_send (copies the buffer), non-blocking; result not printed
+			size_t   len;
+			uint8_t *d = unhex(tok[2], &len);
+			(void) nng_send(socks[IDX(tok[1])], d, len, NNG_FLAG_NONBLOCK);
+			free(d);
+			printf("x\n");
+			fflush(stdout);
+			continue;
+		} else if (strcmp(op, "bufrecv") == 0) {
+			// bufrecv s<k> <size>: nng_recv into a caller buffer (truncating copy), non-blocking
+			uint8_t buf[256];
+			size_t  sz = (size_t) atoi(tok[2]);
+			if (sz > sizeof(buf)) sz = sizeof(buf);
+			(void) nng_recv(socks[IDX(tok[1])], buf, &sz, NNG_FLAG_NONBLOCK);
+			printf("x\n");
+			fflush(stdout);
+			continue;
 		} else if (strcmp(op, "await") == 0) {
 			// await a<k> <ms>: wait for an aio started with send/recv; then settle it (not printed)
 			int k = IDX(tok[1]);
